@@ -26,6 +26,16 @@ theorem evalPureList_eq_flatten (ps : List Pre) :
   | nil => rfl
   | cons p ps ih => simp [evalPureList, ih]
 
+theorem evalPureEach_eq_map (ps : List Pre) : evalPureEach H ps = ps.map (evalPure H) := by
+  induction ps with
+  | nil => rfl
+  | cons p ps ih => simp [evalPureEach, ih]
+
+/-- the node built by `bytes_repr_set`: tag, digests of the elements in byte order, closing brace -/
+theorem evalPureList_setNode (op cl : Bytes) (ps : List Pre) :
+    evalPureList H [lit op, .sorted ps, lit cl] = op ++ ((sortDigests (ps.map (evalPure H))).flatten ++ cl) := by
+  simp [evalPureList, lit, evalPure, evalPureEach_eq_map]
+
 theorem evalPureList_wrap (op cl : Bytes) (ps : List Pre) :
     evalPureList H (lit op :: ps ++ [lit cl]) = op ++ ((ps.map (evalPure H)).flatten ++ cl) := by
   rw [List.cons_append, evalPureList_lit, evalPureList_append, evalPureList_eq_flatten]
@@ -100,6 +110,27 @@ theorem preItems_keys : ∀ {items : List (Scalar × PyVal)} {ps : List (Scalar 
   | (k, v) :: rest, ps, h => by
     obtain ⟨p, ps', _, h2, rfl⟩ := preItems_cons_ok h
     simp [preItems_keys h2]
+
+/-- `preList` commutes with permutations -/
+theorem preList_perm {xs xs' : List PyVal} (hp : xs.Perm xs') :
+    ∀ {ps : List Pre}, preList xs = .ok ps → ∃ ps', preList xs' = .ok ps' ∧ ps.Perm ps' := by
+  induction hp with
+  | nil => intro ps h; exact ⟨ps, h, List.Perm.refl _⟩
+  | cons x _ ih =>
+    intro ps h
+    obtain ⟨p, ps1, h1, h2, rfl⟩ := preList_cons_ok h
+    obtain ⟨ps2, h3, h4⟩ := ih h2
+    exact ⟨p :: ps2, preList_cons_of h1 h3, h4.cons _⟩
+  | swap x y l =>
+    intro ps h
+    obtain ⟨py, ps1, h1, h2, rfl⟩ := preList_cons_ok h
+    obtain ⟨px, ps2, h3, h4, rfl⟩ := preList_cons_ok h2
+    exact ⟨px :: py :: ps2, preList_cons_of h3 (preList_cons_of h1 h4), List.Perm.swap _ _ _⟩
+  | trans _ _ ih1 ih2 =>
+    intro ps h
+    obtain ⟨ps1, h1, h2⟩ := ih1 h
+    obtain ⟨ps2, h3, h4⟩ := ih2 h1
+    exact ⟨ps2, h3, h2.trans h4⟩
 
 /-- `preItems` commutes with permutations -/
 theorem preItems_perm {items items' : List (Scalar × PyVal)} (hp : items.Perm items') :
